@@ -85,11 +85,16 @@ def generator_fn(g):
     return {"nontrivial": True, "sample": {"recorded_max": str(m), "clock": [str(t1), str(t2)], "ids": [str(a), str(b)]}}
 
 
+FS_BOUND = {False: 8, True: 16}
+SQL_BOUND = {False: 6, True: 12}
 OPS = ("run-ok", "run-fail", "gc", "restore-old", "restore-future", "restore-own")
 
 
-def make_history(nops, ops=OPS, window=3):
+def make_history(nops, ops=OPS, window=3, fault=None, fault_bound=0):
+    """fault: None | "fs" | "sql" - in the LAST invocation at most one injected failure (vlib.faults), its position a decision
+    variable; an invocation that fails because of the fault is an ordinary failed invocation, everything else must hold."""
     def fn(g):
+        from vlib import faults
         import conductor.cli.run as cli_run
         import conductor.cli.gc as cli_gc
         proj = hrun.Project()
@@ -99,6 +104,7 @@ def make_history(nops, ops=OPS, window=3):
             recorded = {}          # path -> digest at the time it was recorded
             n = g.choose("nops", nops) + 1
             secs = []
+            maxcalls = [0]
             for i in range(n):
                 op = ops[g.choose("op%d" % i, len(ops))]
                 sec = g.fresh_int("sec%d" % i, 100, 100 + window - 1, opaque=False)
@@ -107,6 +113,13 @@ def make_history(nops, ops=OPS, window=3):
                 before = set(os.listdir(proj.out)) if proj.out.exists() else set()
                 rows_before = proj.index_rows()
                 spawned = {}
+                flt = None
+                if fault and i == n - 1:
+                    k = g.choose("fault_at", fault_bound + 1)
+                    flt = faults.OneFault(k, proj.out) if fault == "fs" else faults.OneSqlFault(k)
+
+                def wrapf(f, flt=flt):
+                    return faults.with_faults(f, flt) if flt is not None else f
 
                 def on_spawn(kernel, proc, spawned=spawned):
                     hrun.snapshot_on_spawn(kernel, proc)
@@ -149,12 +162,17 @@ def make_history(nops, ops=OPS, window=3):
                     res = hrun.invoke_argv(["restore", arch], str(proj.root), kern)
                     os.unlink(arch)
                 elif op == "gc":
-                    res = hrun.invoke(cli_gc.main, argparse.Namespace(dry_run=False, verbose=False, debug=False), str(proj.root), kern)
+                    res = hrun.invoke(wrapf(cli_gc.main), argparse.Namespace(dry_run=False, verbose=False, debug=False), str(proj.root), kern)
                 else:
-                    res = hrun.invoke(cli_run.main, hrun.run_ns(task_identifier="//:d", again=True), str(proj.root), kern)
-                hist.append((op, sec_c))
+                    res = hrun.invoke(wrapf(cli_run.main), hrun.run_ns(task_identifier="//:d", again=True), str(proj.root), kern)
+                fired = flt.fired if flt is not None else None
+                if flt is not None:
+                    maxcalls[0] = max(maxcalls[0], flt.n)
+                    if fired:
+                        g.goal("injected fault fired")
+                hist.append((op, sec_c) + ((("fault", fired),) if fired else ()))
                 H = "history %s" % (hist,)
-                if isinstance(res.status, str):
+                if isinstance(res.status, str) and not (fired and res.status in ("exc:OSError", "exc:PermissionError", "exc:OperationalError")):
                     g.require(False, "history:crash:" + res.status, "%r; %s" % (res.exc, H))
                 if "e" in spawned:
                     p = spawned["e"]
@@ -169,7 +187,10 @@ def make_history(nops, ops=OPS, window=3):
                     g.require(not listing, "version:dir-not-empty-at-start",
                               "output directory already contained %s when the command started; %s" % (listing, H))
                     new_rows = [r for r in proj.index_rows() if r not in rows_before]
-                    if op == "run-ok":
+                    if op == "run-ok" and fired:
+                        g.require([r[1] for r in new_rows] in ([], [vid]), "version:recorded-id-differs-from-directory-written",
+                                  "the execution wrote %s but the index recorded %s; %s" % (os.path.basename(out), [r[1] for r in new_rows], H))
+                    elif op == "run-ok":
                         g.require([r[1] for r in new_rows] == [vid], "version:recorded-id-differs-from-directory-written",
                                   "the execution wrote %s but the index recorded %s; %s" % (os.path.basename(out), [r[1] for r in new_rows], H))
                     else:
@@ -183,7 +204,7 @@ def make_history(nops, ops=OPS, window=3):
                     if path not in recorded:
                         g.require(os.path.isdir(path), "version:recorded-without-directory", "%s; %s" % (path, H))
                         recorded[path] = hrun.tree_digest(path)
-                if op == "gc":
+                if op == "gc" and not fired:
                     left = [x for x in os.listdir(proj.out) if x.startswith("e.task.") and str(proj.out / x) not in recorded]
                     g.require(not left, "gc:left-unrecorded-output", "%s; %s" % (left, H))
             if len(set(secs)) < len(secs):
@@ -208,6 +229,16 @@ def spaces(tier):
                 "window (may repeat or step back)", depth=5,
                 goals=["two invocations within one clock second", "clock steps back between invocations", "run after a failed run"],
                 outside=["concurrent invocations", "more than 3 invocations"])]
+    sp.append(Space("history-2-fs-fault", make_history(2, ops=("run-ok", "run-fail", "gc"), window=2, fault="fs", fault_bound=FS_BOUND[tier == "thorough"]),
+                    "<=2 invocations from {successful run, failing run, gc}, clock second symbolic in a 2 s window; in the last invocation at "
+                    "most one file-system call made on behalf of Conductor under cond-out (listdir, scandir, mkdir, rmdir, open, symlink, "
+                    "unlink, replace, rename, copyfile) fails with EACCES - which one (the k-th, k <= %d) is a decision variable" % FS_BOUND[tier == "thorough"],
+                    depth=5, goals=["injected fault fired", "two invocations within one clock second"],
+                    outside=["more than one fault per invocation", "errno values other than EACCES", "faults of stat/lstat and of file reads/writes"]))
+    sp.append(Space("history-2-sql-fault", make_history(2, ops=("run-ok", "run-fail", "restore-future"), window=2, fault="sql", fault_bound=SQL_BOUND[tier == "thorough"]),
+                    "<=2 invocations from {successful run, failing run, restore of an archive with a future version}; in the last invocation at most one SQL "
+                    "statement of the version index fails with OperationalError('database is locked') - which one (k <= %d) is a decision variable" % SQL_BOUND[tier == "thorough"],
+                    depth=5, goals=["injected fault fired"], outside=["more than one failing statement", "other sqlite errors"]))
     if tier == "thorough":
         sp.append(Space("history-4", make_history(4, window=4), "<=4 invocations, 4 s window", depth=6, tiers=("thorough",)))
     return sp
